@@ -3,6 +3,8 @@
 //	vcheck <ID> [--tier quick|thorough]     search for violations of property ID
 //	vcheck replay <file>                    replay a violation file against the current tree
 //	vcheck selftest determinism [ID...]     same seed => same event log, across processes and GOMAXPROCS
+//	vcheck selftest seeded [id...]          every kept breaking change (seeded/) is reported
+//	vcheck selftest variants [id...]        every kept property-preserving re-implementation (variants/) stays silent
 //
 // It copies /repo's working tree to a scratch directory, instruments the copy,
 // builds the simulator against it, fans out worker processes over seeded run
@@ -562,6 +564,9 @@ func main() {
 		if len(os.Args) > 2 && os.Args[2] == "seeded" {
 			os.Exit(selftestSeeded(os.Args[3:]))
 		}
+		if len(os.Args) > 2 && os.Args[2] == "variants" {
+			os.Exit(selftestVariants(os.Args[3:]))
+		}
 		if len(os.Args) > 2 && os.Args[2] == "passthrough" {
 			os.Exit(selftestPassthrough())
 		}
@@ -757,7 +762,7 @@ func check(id, tier string, workers int, wallOverride float64) int {
 			viols = append(viols, o.Violations...)
 			continue
 		}
-		realC, stubC = o.Real, o.Stub
+		realC, stubC = unionStr(realC, o.Real), unionStr(stubC, o.Stub)
 		agg.Runs += o.Stats.Runs
 		agg.Nontrivial += o.Stats.Nontrivial
 		agg.Steps += o.Stats.Steps
@@ -945,6 +950,24 @@ var wantProbes = map[string][]string{
 	"C17": {"crash_point", "bit_flip", "header_overwrite", "huge_length", "zeroed_range", "dropped_range", "duplicated_tail", "garbage_tail", "read_error"},
 	"C18": {"rw_first_write_fails", "handler_panics", "base_context_logger", "rw_short_write", "rw_error", "rw_partial_then_error", "pool_reuse_other_task"},
 	"C06": {"sink_panics", "package_level_helpers", "sink_closed", "derived_in_task", "sink_short_write", "hook_discards_event", "pool_reuse_other_task", "pool_miss", "pool_drop", "sink_overlap", "two_events_open", "sink_blocks_in_write", "sink_error", "global_level_flip", "sampling_switch_flip", "logger_from_context", "mutex_contended"},
+}
+
+// unionStr appends the strings of b that a does not have yet (workers of the main
+// world and of the extra world report different component lists).
+func unionStr(a, b []string) []string {
+	for _, x := range b {
+		found := false
+		for _, y := range a {
+			if x == y {
+				found = true
+				break
+			}
+		}
+		if !found {
+			a = append(a, x)
+		}
+	}
+	return a
 }
 
 func writeEvidence(id, tier string, seed uint64, cfg propCfg, st Stats, distinct, nviol int, wallS, buildS float64, workers int, realC, stubC, unreached []string, nknown int, raceRuns int, raceSteps int64, raceWorkers int) {
